@@ -610,6 +610,24 @@ fn variants(g: &mut Rng, form: &Form, policy: &Value, secrets: &HashMap<String, 
     let c = fm.get("x-amz-credential").unwrap_or("").to_owned();
     fm.set("x-amz-credential", &if c.starts_with(AK) { c.replacen(AK, AK2, 1) } else { c.replacen(AK2, AK, 1) });
     out.push(("mutation/credential-other-known-key".into(), fm));
+    // an access key the provider does not know, with a policy that names it and a signature that is CORRECT for a secret
+    // an attacker can guess (nothing, the key's own name, the scheme prefix, a known key's secret)
+    const UNKNOWN: &str = "AKIDUNKNOWN000000000";
+    for (name, sec) in [("empty-secret", String::new()), ("own-name-as-secret", UNKNOWN.to_owned()), ("scheme-prefix-as-secret", "AWS4".to_owned()), ("a-known-keys-secret", p.secret.clone())] {
+        let mut fm = form.clone();
+        let mut pol = policy.clone();
+        let cred = format!("{UNKNOWN}/{}", p.scope());
+        if let Some(cs) = pol["conditions"].as_array_mut() {
+            for c in cs.iter_mut() {
+                if c.get("x-amz-credential").is_some() {
+                    *c = json!({"x-amz-credential": cred});
+                }
+            }
+        }
+        fm.set("x-amz-credential", &cred);
+        sign_form(&mut fm, &pol, &V4Params { access_key: UNKNOWN.into(), secret: sec, ..p.clone() });
+        out.push((format!("unknown-key/signed-with/{name}"), fm));
+    }
     let mut fm = form.clone();
     let c = fm.get("x-amz-credential").unwrap_or("").to_owned();
     fm.set("x-amz-credential", &c.replacen("us-east-1", "eu-west-9", 1));
